@@ -37,6 +37,13 @@ PROP = dict(
         dict(name="law", pkg="c02", run="^TestC02_Law$", shards=G1, checks=(1000, 20000), timeout=(900, 3600)),
         dict(name="law2", pkg="c02", run="^TestC02_Law$", shards=G2_FAST, checks=(600, 12000), timeout=(900, 3600)),
         dict(name="law4", pkg="c02", run="^TestC02_Law$", shards=G2_E4, checks=(300, 4000), timeout=(900, 3600), seeds=(2, 4)),
+        # the same law on the other code paths of the coordinate fields: ADX off (mulGenericE2/squareGenericE2 fallbacks of the
+        # tower assembly) and -tags purego (portable base field); C09 compares the variants operation by operation, these jobs
+        # decide the group law itself on them
+        dict(name="law-noadx", pkg="c02", run="^TestC02_Law$", shards=G1 + G2_FAST + G2_E4, checks=(200, 3000), env={"GODEBUG": "cpu.adx=off"},
+             timeout=(900, 3600)),
+        dict(name="law-purego", pkg="c02", run="^TestC02_Law$", shards=G1 + G2_FAST + G2_E4, checks=(200, 3000), tags="purego",
+             timeout=(900, 3600)),
         dict(name="pred", pkg="c02", run="^TestC02_Pred$", shards=G1, checks=(1000, 20000), timeout=(900, 3600)),
         dict(name="pred2", pkg="c02", run="^TestC02_Pred$", shards=G2_FAST, checks=(600, 12000), timeout=(900, 3600)),
         dict(name="pred4", pkg="c02", run="^TestC02_Pred$", shards=G2_E4, checks=(300, 4000), timeout=(900, 3600), seeds=(2, 4)),
